@@ -160,6 +160,60 @@ func HealthySessions(rng *rand.Rand, thorough bool) []Session {
 		[]SOp{{Op: "expectws", R: "r1"}, {Op: "expectws", R: "r2"}, {Op: "sig", R: "r1"}, {Op: "err", R: "r2", SF: true}, {Op: "expectws", R: "r3"},
 			{Op: "sig", R: "r3"}, {Op: "done", R: "r3", X: 3}, {Op: "expectsig", N: 1}, {Op: "done", R: "r1", X: 1}, {Op: "err", R: "r1"},
 			{Op: "expectws", R: "r4"}, {Op: "done", R: "r4", X: 4}, {Op: "expectdone"}}))
+	// Work-starts the real server accepts from the wire but cannot run. Its replies, recorded from
+	// RunATPServer (atp/server.go handleWorkStartMessage / runStep): (a) empty step ID -> exactly one
+	// error message {step_fatal, run ID ""}; (b) unknown step ID and (c) input rejected by the step's
+	// schema -> one error message {step_fatal, that run ID}. Nothing else follows, and the server keeps
+	// its output open and silent until client-done: only the client's own handling of that one
+	// message can end the Execute.
+	type mal struct {
+		name string
+		dop  DOp
+		rep  func(r string) SOp
+	}
+	mals := []mal{
+		{"emptystep", DOp{Op: "exec", Sid: "-"}, func(string) SOp { return SOp{Op: "err", R: "", SF: true} }},
+		{"unknownstep", DOp{Op: "exec", Sid: "nosuch"}, func(r string) SOp { return SOp{Op: "err", R: r, SF: true} }},
+		{"badinput", DOp{Op: "exec", Bad: true}, func(r string) SOp { return SOp{Op: "err", R: r, SF: true} }},
+	}
+	for _, m := range mals {
+		ex := func(r string) DOp { d := m.dop; d.R = r; return d }
+		// alone
+		out = append(out, hs("mal-"+m.name+"-alone", 3,
+			[]DOp{ex("r1"), {Op: "join", R: "r1"}, {Op: "close"}},
+			[]SOp{{Op: "expectws", R: "r1"}, m.rep("r1"), {Op: "expectdonelong"}}))
+		// serial, after a successful run and before another one
+		out = append(out, hs("mal-"+m.name+"-serial", 3,
+			[]DOp{{Op: "exec", R: "r1"}, {Op: "join", R: "r1"}, ex("r2"), {Op: "join", R: "r2"}, {Op: "exec", R: "r3"}, {Op: "join", R: "r3"}, {Op: "close"}},
+			[]SOp{{Op: "expectws", R: "r1"}, {Op: "done", R: "r1", X: 1}, {Op: "expectws", R: "r2"}, m.rep("r2"),
+				{Op: "expectws", R: "r3"}, {Op: "done", R: "r3", X: 3}, {Op: "expectdonelong"}}))
+		// overlapping with one / two healthy runs that are answered afterwards. (For (a) the healthy
+		// runs are started once the malformed one has returned: the client fans a step-fatal error
+		// without run ID out to every run waiting at that moment, which would take them along.)
+		if m.name == "emptystep" {
+			out = append(out, hs("mal-"+m.name+"-then-1", 3,
+				[]DOp{ex("r2"), {Op: "join", R: "r2"}, {Op: "exec", R: "r1"}, {Op: "joinall"}, {Op: "close"}},
+				[]SOp{{Op: "expectws", R: "r2"}, m.rep("r2"), {Op: "expectws", R: "r1"}, {Op: "done", R: "r1", X: 1}, {Op: "expectdonelong"}}))
+			out = append(out, hs("mal-"+m.name+"-then-2", 3,
+				[]DOp{ex("r3"), {Op: "join", R: "r3"}, {Op: "exec", R: "r1"}, {Op: "exec", R: "r2"}, {Op: "joinall"}, {Op: "close"}},
+				[]SOp{{Op: "expectws", R: "r3"}, m.rep("r3"), {Op: "expectws", R: "r1"}, {Op: "expectws", R: "r2"},
+					{Op: "done", R: "r2", X: 2}, {Op: "done", R: "r1", X: 1}, {Op: "expectdonelong"}}))
+			// ... and the overlap proper: the runs waiting at that moment get the error too, the
+			// server's later answers for them find no entry; everybody returns
+			out = append(out, hs("mal-"+m.name+"-overlap-2", 3,
+				[]DOp{{Op: "exec", R: "r1"}, {Op: "exec", R: "r2"}, {Op: "await", N: 3}, ex("r3"), {Op: "joinall"}, {Op: "close"}},
+				[]SOp{{Op: "expectws", R: "r1"}, {Op: "expectws", R: "r2"}, {Op: "expectws", R: "r3"}, m.rep("r3"),
+					{Op: "done", R: "r2", X: 2}, {Op: "done", R: "r1", X: 1}, {Op: "expectdonelong"}}))
+		} else {
+			out = append(out, hs("mal-"+m.name+"-overlap-1", 3,
+				[]DOp{{Op: "exec", R: "r1"}, ex("r2"), {Op: "joinall"}, {Op: "close"}},
+				[]SOp{{Op: "expectws", R: "r1"}, {Op: "expectws", R: "r2"}, m.rep("r2"), {Op: "done", R: "r1", X: 1}, {Op: "expectdonelong"}}))
+			out = append(out, hs("mal-"+m.name+"-overlap-2", 3,
+				[]DOp{{Op: "exec", R: "r1"}, ex("r3"), {Op: "exec", R: "r2"}, {Op: "joinall"}, {Op: "close"}},
+				[]SOp{{Op: "expectws", R: "r1"}, {Op: "expectws", R: "r3"}, {Op: "expectws", R: "r2"}, m.rep("r3"),
+					{Op: "done", R: "r2", X: 2}, {Op: "done", R: "r1", X: 1}, {Op: "expectdonelong"}}))
+		}
+	}
 	// ATP v1
 	out = append(out, hs("v1-serial-1", 1, []DOp{{Op: "exec", R: "r1"}, {Op: "join", R: "r1"}, {Op: "close"}},
 		[]SOp{{Op: "expect", N: 2}, {Op: "done1", X: 1}}))
